@@ -6,6 +6,7 @@ import (
 	"strings"
 
 	"github.com/libsv/go-bt/v2/bscript/interpreter"
+	"github.com/libsv/go-bt/v2/bscript/interpreter/debug"
 
 	"verif/harness/common"
 	"verif/harness/interpgen"
@@ -161,6 +162,13 @@ func lifecycleOK(tr []string, p2sh bool) (bool, string) {
 	return true, ""
 }
 
+func trunc19(s string) string {
+	if len(s) > 300 {
+		return s[:300] + "…"
+	}
+	return s
+}
+
 func lifecycleOnly(tr []string) string {
 	var sb strings.Builder
 	for _, e := range tr {
@@ -206,6 +214,44 @@ func emit19(p *interpgen.Program) {
 	}
 	if plain != opd.Obs || plainMsg != opd.Err || strings.Join(rec.Trace, " ") != strings.Join(opd.Trace, " ") || rec.Hash != opd.Hash {
 		c.Violate("Debugger/snapshot-opcode-data-aliases-engine", fmt.Sprintf("changing ParsedOpcode.Data bytes inside State.Scripts changes the run: %s %q vs %s %q (or the callbacks / snapshots differ)", plain, plainMsg, opd.Obs, opd.Err), p)
+	}
+	// the library's own fan-out debugger (debug.NewDebugger) with one handler per hook, two handlers on some:
+	// every handler is called at its own lifecycle point, in the order a hand-written Debugger sees
+	{
+		var log []string
+		d := debug.NewDebugger()
+		st := func(n string) debug.ThreadStateFunc { return func(*interpreter.State) { log = append(log, n) } }
+		sk := func(n string) debug.StackFunc { return func(*interpreter.State, []byte) { log = append(log, n) } }
+		d.AttachBeforeExecute(st("BE"))
+		d.AttachAfterExecute(st("AE"))
+		d.AttachBeforeStep(st("BS"))
+		d.AttachAfterStep(st("AS"))
+		d.AttachBeforeExecuteOpcode(st("BO"))
+		d.AttachAfterExecuteOpcode(st("AO"))
+		d.AttachBeforeScriptChange(st("BC"))
+		d.AttachAfterScriptChange(st("AC"))
+		d.AttachAfterSuccess(st("OK"))
+		d.AttachAfterError(func(*interpreter.State, error) { log = append(log, "ER") })
+		d.AttachBeforeStackPush(sk("bp"))
+		d.AttachAfterStackPush(sk("ap"))
+		d.AttachBeforeStackPop(st("bq"))
+		d.AttachAfterStackPop(sk("aq"))
+		d.AttachAfterStep(st("AS2")) // a second handler on one hook runs after the first
+		d.AttachAfterStackPush(sk("ap2"))
+		fan := interpgen.RunBuilt(interpgen.Build(p, d), &interpgen.Recorder{})
+		var want []string
+		for _, e := range rec.Trace {
+			want = append(want, e)
+			if e == "AS" {
+				want = append(want, "AS2")
+			}
+			if e == "ap" {
+				want = append(want, "ap2")
+			}
+		}
+		if fan.Obs != plain || strings.Join(log, " ") != strings.Join(want, " ") {
+			c.Violate("debug.NewDebugger/handlers-not-called-at-their-lifecycle-points", fmt.Sprintf("verdict %s (plain %s); handlers called: %s; a hand-written Debugger sees: %s", fan.Obs, plain, trunc19(strings.Join(log, " ")), trunc19(strings.Join(want, " "))), p)
+		}
 	}
 	if rec.Incons != "" {
 		c.Violate("Debugger/snapshot-inconsistent-with-execution", rec.Incons, p)
@@ -276,5 +322,5 @@ func runC19() {
 	over := append(bytes.Repeat([]byte{0x51}, 3), bytes.Repeat([]byte{0x6f}, 332)...)
 	over = append(over, 0x51, 0x51)
 	emit19((&interpgen.Program{Unlock: []byte{}, Lock: over, Flags: 0, Kind: "lifecycle-stack-limit"}).Fix())
-	c.Stats.Rule = "the interpreter-equivalence programs (opcode x operand matrix sample, grammar-generated programs, P2SH pairs, script-boundary and flow-control programs, both eras, sampled flags), each run five ways: no debugger, a recording debugger, two debuggers that overwrite every field and every stack byte of every State they are handed (XOR 0xff, and +1 which is not self-inverse) and one that changes the push data of the parsed opcodes in State.Scripts; verdict AND error text, callback sequence and all snapshots must coincide; the callback sequence is checked against the lifecycle grammar in Go and, projected to lifecycle events, compared with the model's trace in Coq. distinct = distinct program; one program per shape of the lifecycle grammar and one reaching the combined stack limit exactly and exceeding it by one are added. non-trivial = at least one step completed"
+	c.Stats.Rule = "the interpreter-equivalence programs (opcode x operand matrix sample, grammar-generated programs, P2SH pairs, script-boundary and flow-control programs, both eras, sampled flags), each run six ways: no debugger, a recording debugger, the library's own debug.NewDebugger with a logging handler on every hook (two on some), two debuggers that overwrite every field and every stack byte of every State they are handed (XOR 0xff, and +1 which is not self-inverse) and one that changes the push data of the parsed opcodes in State.Scripts; verdict AND error text, callback sequence and all snapshots must coincide; the callback sequence is checked against the lifecycle grammar in Go and, projected to lifecycle events, compared with the model's trace in Coq. distinct = distinct program; one program per shape of the lifecycle grammar and one reaching the combined stack limit exactly and exceeding it by one are added. non-trivial = at least one step completed"
 }
